@@ -153,3 +153,34 @@ func IsExpansionTemp(phi *ssa.Phi) bool {
 }
 
 var expansionTempRE = regexp.MustCompile(`^_r[0-9]+_i[0-9]+`)
+
+// searchEdges walks the CFG from start edge-sensitively (see EdgeOutcome). visit is called
+// once per (predecessor, block) pair; it returns found=true to stop the search with success,
+// prune=true not to continue beyond the block.
+func searchEdges(start *ssa.BasicBlock, removed map[Edge]bool, visit func(b, pred *ssa.BasicBlock) (found, prune bool)) bool {
+	type state struct{ pred, b *ssa.BasicBlock }
+	seen := map[state]bool{{nil, start}: true}
+	work := []state{{nil, start}}
+	for len(work) > 0 {
+		st := work[len(work)-1]
+		work = work[:len(work)-1]
+		found, prune := visit(st.b, st.pred)
+		if found {
+			return true
+		}
+		if prune {
+			continue
+		}
+		for _, s := range threadedSuccs(st.pred, st.b) {
+			if removed[Edge{st.b, s}] {
+				continue
+			}
+			n := state{st.b, s}
+			if !seen[n] {
+				seen[n] = true
+				work = append(work, n)
+			}
+		}
+	}
+	return false
+}
